@@ -50,9 +50,7 @@ NeverTrimmedOne == \A p \in P : tx[p].res = "ok" => (tx[p].has["A"] /\ tx[p].has
 
 -----------------------------------------------------------------------------
 Ideals == {x \in Lo..Hi : (x - Lo) % Step = 0}
-Max(a, b) == IF a > b THEN a ELSE b
 
-MidChan(o, tap) == MkChan(o, TRUE, tap, 354, 354, 1000 * ((Capacity \div 2) - 6744 - 660), 1000 * (Capacity \div 2), 6744)
 
 NegInit ==
   /\ \E o \in {"A"}, tap \in BOOLEAN : ch = MidChan(o, tap)
